@@ -36,6 +36,7 @@ type PoolCase struct {
 	PingPong   int    `json:"ping_pong,omitempty"`  // > 0: this many tiny tasks, each submitted the moment the previous one signals its completion (the submitter meets a worker that is just going idle), with a swept delay of a few spin steps
 	OpenPools  int    `json:"open_pools,omitempty"` // this many other 16-worker pools are created, used once and kept open while the case runs
 	PreTasks   int `json:"pre_tasks,omitempty"` // this many trivial tasks are submitted and waited for before every round (shifts whatever per-submit bookkeeping the pool keeps)
+	EarlyWait int `json:"early_wait,omitempty"` // 1: Wait is called on the pool right after NewWorkerPool (nothing submitted); 2: one trivial task, then Wait — before anything else happens
 	NestedKids int `json:"nested_kids,omitempty"` // follow-up tasks per task (default 1); Tasks*NestedKids <= 2*workers: they fit the queue exactly
 	NestedSubmit bool `json:"nested_submit,omitempty"` // gated, Tasks <= workers: every task submits one follow-up task to its own pool (while the waiter is inside Wait) before it finishes
 }
@@ -129,6 +130,17 @@ func runPoolCase(cs *PoolCase) *PoolObs {
 	}
 	pool := flyt.NewWorkerPool(cs.Workers)
 	we := effWorkers(cs.Workers)
+	switch cs.EarlyWait { // the very first thing that happens to the new pool is a Wait (its workers may not even be running yet)
+	case 1:
+		pool.Wait()
+	case 2:
+		var ran atomic.Int32
+		pool.Submit(func() { ran.Add(1) })
+		pool.Wait()
+		if ran.Load() != 1 {
+			o.NotOnce = append(o.NotOnce, fmt.Sprintf("the first task submitted to the new pool had run %d times when Wait returned", ran.Load()))
+		}
+	}
 	if cs.PingPong > 0 {
 		runPingPong(cs, pool, o, self, &st)
 		if o.Deadlock || o.Incon != "" {
@@ -279,6 +291,24 @@ func runPoolCase(cs *PoolCase) *PoolObs {
 				default:
 				}
 				if fin {
+					mu.Lock()
+					np := len(parked)
+					mu.Unlock()
+					if unfinished := n - int(completed.Load()-completedAtRoundStart); np > 0 || unfinished > 0 {
+						// the round's waiter is through (its Wait has returned) although tasks of the round are still parked or
+						// not even started: a verdict — and the end of this case (going on would block the harness itself in
+						// Submit behind tasks nobody releases)
+						o.WaitEarly = append(o.WaitEarly, fmt.Sprintf("round %d: Wait had returned with %d tasks unfinished (%d parked, nothing else runnable)", round, unfinished, np))
+						mu.Lock()
+						for k, ch := range parked {
+							close(ch)
+							delete(parked, k)
+						}
+						mu.Unlock()
+						o.HighWater = int(hw.Load())
+						o.Snapshots = st.Snapshots
+						return o
+					}
 					break
 				}
 				if cs.DwellMs > 0 && dwells < 2 {
@@ -982,6 +1012,11 @@ func runC08(c *Cfg) {
 		}
 	}()
 	for _, w := range []int{-1, 1, 2, 3} {
+		if w > 1 {
+			for ew := 1; ew <= 2; ew++ { // a Wait on the brand-new pool (idle, or after one trivial task), then load: the limit is what it was made with
+				pcs = append(pcs, &PoolCase{Family: "pool-limit-after-wait-on-a-fresh-pool", Workers: w, Tasks: 3*w + 1, Submitters: 1, Rounds: 2, Gated: true, Policy: []string{"first", "last"}[ew%2], EarlyWait: ew})
+			}
+		}
 		pcs = append(pcs, &PoolCase{Family: "pool-limit-dwell", Workers: w, Tasks: 3*effWorkers(w) + 4, Submitters: 1 + (w+1)%2, Rounds: 1, Gated: true, Policy: "first", DwellMs: 350})
 	}
 	poolLoop(c, len(pcs), func(i int) *PoolCase { return pcs[i] }, func(i int, cs *PoolCase, o *PoolObs) {
@@ -1021,6 +1056,9 @@ func runC12(c *Cfg) {
 	}
 	// idle periods between rounds (time-triggered behaviour such as idle timers gets its chance)
 	for _, w := range []int{1, 2, 3, 6} {
+		for ew := 1; ew <= 2; ew++ {
+			pcs = append(pcs, &PoolCase{Family: "wait-on-a-fresh-pool", Workers: w, Tasks: 2*w + 1, Submitters: 2, Rounds: 2, Gated: true, Policy: "random", PSeed: uint64(w + ew), EarlyWait: ew})
+		}
 		pcs = append(pcs, &PoolCase{Family: "idle-between-rounds", Workers: w, Tasks: w + 1, Submitters: 1, Rounds: 2, Gated: true, Policy: "first", IdleMs: 650})
 	}
 	// saturated pool left alone for 350 ms: Submit keeps blocking (a grace period after which it "helps out" would show)
